@@ -755,8 +755,17 @@ impl<'a> Gen<'a> {
             0 => Val::E("UNKNOWN".into()),
             1..=4 => Val::T(r.pick(&BUILTIN_CARS).to_string()),
             _ => loop {
-                let id = match r.below(3) {
+                let id = match r.below(4) {
                     0 => r.range(1, 0xFFFFFF),
+                    1 => {
+                        // on the border of the built-in shape: a built-in name with one byte made non-alphanumeric,
+                        // or with a non-zero 4th byte
+                        let mut b = [0u8; 4];
+                        b[..3].copy_from_slice(r.pick(&BUILTIN_CARS).as_bytes());
+                        let k = r.usize_below(4);
+                        b[k] = if k == 3 { 1 + r.below(255) as u8 } else { *r.pick(&[0u8, 0x20, 0x2f, 0x3a, 0x40, 0x5b, 0x60, 0x7b, 0x9c, 0xff]) };
+                        u32::from_le_bytes(b) as u64
+                    },
                     _ => r.next_u32() as u64,
                 };
                 let b = (id as u32).to_le_bytes();
@@ -817,8 +826,21 @@ impl<'a> Gen<'a> {
             },
             Kind::Dur { bytes, .. } => Val::U(int_val(r, *bytes as u32 * 8, o.boundary)),
             Kind::Text { n, raw } => {
-                let oo = if *raw && o.text == TextMode::Mixed { GenOpts { text: TextMode::Ascii, ..*o } } else { *o };
-                Val::T(self.text(r, *n, false, false, &oo))
+                if *raw && o.text == TextMode::Mixed {
+                    // a raw field carries the string's own (UTF-8) bytes: size it by those
+                    let target = if r.chance(1, 3) { *n } else { r.usize_below(*n + 1) };
+                    let mut t = String::new();
+                    loop {
+                        let c = if r.chance(1, 2) { (0x21 + r.below(0x5e) as u8) as char } else { *r.pick(self.mixed_pool) };
+                        if t.len() + c.len_utf8() > target {
+                            break;
+                        }
+                        t.push(c);
+                    }
+                    Val::T(t)
+                } else {
+                    Val::T(self.text(r, *n, false, false, o))
+                }
             },
             Kind::ZText(n) => Val::T(self.text(r, *n, true, false, o)),
             Kind::VText(n) => Val::T(self.text(r, *n, false, true, o)),
